@@ -203,22 +203,27 @@ where
     where
         F: FnMut(&K, &mut V) -> bool,
     {
-        let keys_to_remove: Vec<K> = self
-            .inner
-            .iter()
-            .filter_map(|(k, v)| {
-                // Simple test - just check if we should keep the item
-                let mut value_copy = v.clone();
-                if f(k, &mut value_copy) {
-                    None
-                } else {
-                    Some(k.clone())
-                }
-            })
-            .collect();
+        // The iterator hands out shared references, so the predicate runs on a copy of
+        // each value; the copies of the kept entries are written back afterwards so that
+        // changes made through the `&mut V` are not lost.
+        let mut keys_to_remove: Vec<K> = Vec::new();
+        let mut kept: Vec<(K, V)> = Vec::new();
+        for (k, v) in self.inner.iter() {
+            let mut value_copy = v.clone();
+            if f(k, &mut value_copy) {
+                kept.push((k.clone(), value_copy));
+            } else {
+                keys_to_remove.push(k.clone());
+            }
+        }
 
         for key in keys_to_remove {
             self.inner.remove(&key);
+        }
+        for (key, value) in kept {
+            if let Some(slot) = self.inner.get_mut(&key) {
+                *slot = value;
+            }
         }
     }
 
